@@ -553,8 +553,8 @@ func (g *mwGen) guard(what string, f func()) {
 				msg = e.msg
 			case fatalErr:
 				msg = e.msg
-			default:
-				panic(r)
+			default: // a bug of this walker must not take the other generated files down either
+				msg = fmt.Sprintf("internal error: %v", r)
 			}
 			if g.problem == "" {
 				g.problem = what + ": " + msg
